@@ -195,5 +195,5 @@ func vValidatedACX(maxFiles int, withDir bool, withProxy bool, mixed bool) {
 func VerifValidatedAC()      { vValidatedAC(1, false, false) }
 func VerifValidatedACMixed() { vValidatedACX(2, false, false, true) }
 func VerifValidatedACDir()   { vValidatedAC(0, true, false) }
-func VerifValidatedAC2()     { vValidatedAC(2, true, false) }
+func VerifValidatedAC2()     { vValidatedAC(2, false, false) }
 func VerifValidatedACProxy() { vValidatedAC(1, false, true) }
